@@ -45,3 +45,103 @@ def log_is(log, want):
         out['link_' + str(i) + '_lhs'] = same_obj(log[i][0], want[i][0]) if i < len(log) else False
         out['link_' + str(i) + '_rhs'] = same_obj(log[i][1], want[i][1]) if i < len(log) else False
     return out
+
+
+# ----------------------------------------------------------------- (1) stand-ins for _ValueClassInstance._fixpoint
+#
+# `_fixpoint(stmt, run_body)` only JOINS (`|`) and COMPARES (`==`) classes and never looks inside one, so it is run over
+# the one-atom lattice {False (bottom), True (the atom)}: `|` on bools is the join and `_TOP` is stored as True.  The
+# 16-element ValueClass lattice is the 4-fold product of this one with pointwise join and equality.  The body walk is
+# abstract: one call of `run_body` sets the class of every loop-carried (rhs) definition to an UNINTERPRETED function
+# `c13y_body(i, <classes of all phis at the call>)` -- deterministic, and it reads nothing but the phi classes (what
+# is defined before the loop does not change during the fixpoint) -- and remembers in `phi.before` what it saw.
+
+class DefStub:
+    """a definition; its class is kept in the object (`by_def[d]` is `d.cls`)"""
+    cls: bool
+
+
+class PhiStub(DefStub):
+    """a loop phi: `lhs` the definition reaching the loop from before it, `rhs` the loop-carried one (the code's
+    `def_use.defs[phi.lhs]` is the identity table here)"""
+    lhs: DefStub
+    rhs: DefStub
+    before: bool          # ghost: the class this phi had when the body walk last started
+
+
+class LoopStub:
+    """the loop statement: stands for its row of phis"""
+    row: 'tuple[PhiStub, ...]'
+
+
+class PhiTable:
+    def __getitem__(self, stmt):
+        return stmt.row
+
+
+class DefTable:
+    def __getitem__(self, d):
+        return d
+
+
+class ClsTable:
+    def __getitem__(self, d):
+        return d.cls
+
+
+class DUStub:
+    phis: PhiTable
+    defs: DefTable
+
+
+def body_out(i, row):
+    """class the abstract body walk computes for the loop-carried definition of phi i from the classes of ALL phis"""
+    if len(row) == 1:
+        return ghost_pred('c13y_body1', i, row[0].cls)
+    if len(row) == 2:
+        return ghost_pred('c13y_body2', i, row[0].cls, row[1].cls)
+    return ghost_pred('c13y_body3', i, row[0].cls, row[1].cls, row[2].cls)
+
+
+class BodyStub:
+    """the `run_body` closure: it captures the loop statement (`loop` IS the `stmt` argument: contract `aliases`)"""
+    loop: LoopStub
+    calls: int
+
+    def __call__(self):
+        row = self.loop.row
+        outs = [body_out(i, row) for i in range(len(row))]
+        for i in range(len(row)):
+            row[i].before = row[i].cls
+        for i in range(len(row)):
+            row[i].rhs.cls = outs[i]
+        self.calls = self.calls + 1
+
+
+class FixProbe(_ValueClassInstance):
+    """`_fixpoint` is the inherited, unmodified method; classes live in the definition stubs"""
+    def_use: DUStub
+    by_def: ClsTable
+
+    def _set_def(self, d, cls):
+        d.cls = cls if isinstance(cls, bool) else True        # `_TOP` of the one-atom lattice
+
+    def _def_class(self, d):
+        return d.cls
+
+
+def fix_post(row, run_body, n):
+    out = {}
+    for i in range(n):
+        p = row[i]
+        # THE property: one more round changes nothing, for EVERY phi --
+        #   the loop-carried class is what the body walk yields from the final phi classes ...
+        out['fixed_point_' + str(i)] = p.rhs.cls == body_out(i, row)
+        #   ... and the phi already covers both incoming edges (so the merge after that walk leaves it as it is)
+        out['covers_' + str(i)] = implies(p.lhs.cls or p.rhs.cls, p.cls)
+        # the last body walk started from the returned phi classes (no phi moved in the last round)
+        out['unchanged_last_round_' + str(i)] = p.cls == p.before
+        # a phi is exactly the join of its edges, unless the round budget ran out (then it is the top class)
+        out['join_or_top_' + str(i)] = (p.cls == (p.lhs.cls or p.rhs.cls)) or (run_body.calls == 4 * n + 2 and p.cls)
+    out['rounds'] = 1 <= run_body.calls and run_body.calls <= 4 * n + 2
+    return out
